@@ -220,4 +220,749 @@ Section AnySort.
     - destruct (r_reason r); discriminate.
     - exfalso. revert P. apply process_rewrites_terminates.
   Qed.
+
+  (** ** Address soundness *)
+
+  (** [i] is the address of a table entry that covers [final] and has the
+      requested type. *)
+  Definition from_table (tbl : list entry) (final : bytes) (qt : N) (i : ip) : Prop :=
+    exists e, In e tbl /\ matches_host e final = true /\ e_ip e = Some i /\
+              rtype_code (e_type e) = qt /\ (qt = qA \/ qt = qAAAA).
+
+  (** The finally resolved name of a result for a query for [host]: the
+      canonical name, or [host] itself when no CNAME was followed. *)
+  Definition resolved_name (host : bytes) (r : rw_result) (final : bytes) : Prop :=
+    final = r_canon r \/ (r_canon r = [] /\ final = host).
+
+  Lemma is_addr_q_spec qt : is_addr_q qt = true -> qt = qA \/ qt = qAAAA.
+  Proof. unfold is_addr_q. rewrite orb_true_iff, !N.eqb_eq. tauto. Qed.
+
+  Lemma set_result_from_table tbl host qt canon rws i :
+    (forall e, In e rws -> In e tbl /\ matches_host e host = true) ->
+    In i (r_ips (set_result {| r_reason := Rewritten; r_canon := canon; r_ips := [] |} rws qt)) ->
+    from_table tbl host qt i.
+  Proof.
+    intros Hr H. apply set_result_ips in H. cbn in H.
+    destruct H as [[]|(e & He & Hi & Ht & Hq)].
+    destruct (Hr e He). exists e. repeat split; auto using is_addr_q_spec.
+  Qed.
+
+  Lemma chase_addresses fuel : forall tbl qt orig host visited canon rws matched r i,
+    (forall e, In e rws -> In e tbl /\ matches_host e host = true) ->
+    canon = host \/ (canon = [] /\ host = orig) ->
+    chase sort fuel tbl qt orig host visited canon rws matched = Some r ->
+    In i (r_ips r) ->
+    exists final, resolved_name orig r final /\ from_table tbl final qt i.
+  Proof.
+    unfold resolved_name.
+    induction fuel as [|fuel IH]; intros tbl qt orig host visited canon rws matched r i Hr Hc;
+      cbn [chase]; [discriminate|].
+    assert (D : Some (set_result {| r_reason := Rewritten; r_canon := canon; r_ips := [] |} rws qt)
+                = Some r -> In i (r_ips r) ->
+                exists final, (final = r_canon r \/ r_canon r = [] /\ final = orig) /\
+                              from_table tbl final qt i).
+    { intros [= <-] Hi. exists host. rewrite set_result_canon. cbn. split.
+      - destruct Hc as [->|[-> ->]]; auto.
+      - eapply set_result_from_table; eauto. }
+    destruct rws as [|rw rws]; [exact D|].
+    destruct (matched && is_cname rw); [|exact D].
+    destruct (_ || _); [intros [= <-] []|].
+    destruct (_ && _).
+    { match goal with |- Some ?x = Some r -> _ =>
+        intros E Hi; assert (E' : r = x) by congruence; subst r; clear E end.
+      exists host. rewrite set_result_canon. cbn. split; [auto|].
+      eapply set_result_from_table; eauto. }
+    destruct (mem_bytes _ _); [intros [= <-] []|].
+    destruct (find_rewrites sort tbl (e_ans rw) qt) as [rws' m'] eqn:F.
+    apply IH; auto.
+    intros e H. change rws' with (fst (rws', m')) in H. rewrite <- F in H.
+    apply find_rewrites_In in H. unfold qualifies in H. tauto.
+  Qed.
+
+  Theorem addresses_from_table tbl host qt r i :
+    process_rewrites sort tbl host qt = Some r -> In i (r_ips r) ->
+    exists final, resolved_name host r final /\ from_table tbl final qt i.
+  Proof.
+    unfold process_rewrites.
+    destruct (find_rewrites sort tbl host qt) as [rws m] eqn:F.
+    destruct (negb m); [intros [= <-] []|].
+    apply chase_addresses; auto.
+    intros e H. change rws with (fst (rws, m)) in H. rewrite <- F in H.
+    apply find_rewrites_In in H. unfold qualifies in H. tauto.
+  Qed.
+
+  (** For a table produced by [normalize] the requested type is the family. *)
+  Lemma normalize_family w i :
+    e_ip (normalize w) = Some i -> e_type (normalize w) = if ip_is4 i then RA else RAAAA.
+  Proof.
+    unfold normalize. destruct (eqb_bytes _ ans_AAAA); [discriminate|].
+    destruct (eqb_bytes _ ans_A); [discriminate|].
+    destruct (w_parse w); cbn; [intros [= ->]; reflexivity | discriminate].
+  Qed.
+
+  Corollary addresses_family raws host qt r i :
+    process_rewrites sort (map normalize raws) host qt = Some r -> In i (r_ips r) ->
+    ip_is4 i = (qt =? qA).
+  Proof.
+    intros P Hi. destruct (addresses_from_table _ _ _ _ _ P Hi) as (final & _ & e & He & _ & Hip & Ht & _).
+    apply in_map_iff in He as (w & <- & _). rewrite (normalize_family _ _ Hip) in Ht.
+    subst qt. destruct (ip_is4 i); reflexivity.
+  Qed.
+
+  (** The same at the level of CheckHost (name lower-cased first). *)
+  Corollary check_host_addresses en tbl host qt r i :
+    check_host sort en tbl host qt = Some r -> In i (r_ips r) ->
+    exists final, resolved_name (to_lower host) r final /\ from_table tbl final qt i.
+  Proof.
+    unfold check_host. destruct (is_nil host); [intros [= <-] []|].
+    destruct (negb en); [intros [= <-] []|].
+    destruct (process_rewrites sort tbl (to_lower host) qt) as [r'|] eqn:P; [|discriminate].
+    destruct (r_reason r'); intros [= <-]; [intros []|].
+    eapply addresses_from_table; eauto.
+  Qed.
 End AnySort.
+
+(** * Compare is a strict weak order *)
+
+Lemma lt_entry_irrefl a : lt_entry a a = false.
+Proof.
+  unfold lt_entry, compare, len_diff. apply Z.ltb_ge.
+  destruct (is_cname a), (is_wildcard (e_dom a)); cbn; lia.
+Qed.
+
+Lemma lt_entry_asym a b : lt_entry a b = true -> lt_entry b a = false.
+Proof.
+  unfold lt_entry. rewrite Z.ltb_lt, Z.ltb_ge. unfold compare, len_diff.
+  destruct (is_cname a), (is_cname b), (is_wildcard (e_dom a)), (is_wildcard (e_dom b)); cbn; lia.
+Qed.
+
+Lemma lt_entry_trans a b c : lt_entry a b = true -> lt_entry b c = true -> lt_entry a c = true.
+Proof.
+  unfold lt_entry. rewrite !Z.ltb_lt. unfold compare, len_diff.
+  destruct (is_cname a), (is_cname b), (is_cname c),
+    (is_wildcard (e_dom a)), (is_wildcard (e_dom b)), (is_wildcard (e_dom c)); cbn; lia.
+Qed.
+
+(** Transitivity of "not smaller" (so incomparability is transitive too). *)
+Lemma lt_entry_negtrans a b c : lt_entry a b = false -> lt_entry b c = false -> lt_entry a c = false.
+Proof.
+  unfold lt_entry. rewrite !Z.ltb_ge. unfold compare, len_diff.
+  destruct (is_cname a), (is_cname b), (is_cname c),
+    (is_wildcard (e_dom a)), (is_wildcard (e_dom b)), (is_wildcard (e_dom c)); cbn; lia.
+Qed.
+
+(** What "smaller" means: CNAME before addresses, then exact before
+    wildcard, then longer pattern first. *)
+Lemma lt_entry_spec a b :
+  lt_entry a b = true <->
+  (is_cname a = true /\ is_cname b = false) \/
+  (is_cname a = is_cname b /\
+   ((is_wildcard (e_dom a) = false /\ is_wildcard (e_dom b) = true) \/
+    (is_wildcard (e_dom a) = is_wildcard (e_dom b) /\
+     (length (e_dom b) < length (e_dom a))%nat))).
+Proof.
+  unfold lt_entry. rewrite Z.ltb_lt. unfold compare, len_diff.
+  destruct (is_cname a), (is_cname b), (is_wildcard (e_dom a)), (is_wildcard (e_dom b)); cbn;
+    intuition (try discriminate; try lia).
+Qed.
+
+(** Sorted with respect to Compare: no later element is smaller than an
+    earlier one (what slices.SortFunc guarantees for a strict weak order). *)
+Definition sorted_by_compare (l : list entry) : Prop :=
+  StronglySorted (fun a b => lt_entry b a = false) l.
+
+(** * The evaluator's insertion sort is such a function *)
+
+Lemma insert_perm x l : Permutation (insert x l) (x :: l).
+Proof.
+  induction l as [|y r IH]; cbn; [auto|]. destruct (lt_entry y x); [|auto].
+  rewrite IH. apply perm_swap.
+Qed.
+
+Lemma isort_perm l : Permutation (isort l) l.
+Proof. induction l as [|x l IH]; cbn; [auto|]. rewrite insert_perm. auto. Qed.
+
+Lemma insert_sorted x l : sorted_by_compare l -> sorted_by_compare (insert x l).
+Proof.
+  unfold sorted_by_compare. induction l as [|y r IH]; cbn; intros S.
+  - repeat constructor.
+  - apply StronglySorted_inv in S as [S F]. destruct (lt_entry y x) eqn:L.
+    + constructor; auto. apply (Permutation_Forall (Permutation_sym (insert_perm x r))).
+      constructor; auto using lt_entry_asym.
+    + constructor; [constructor; auto|]. constructor; auto.
+      rewrite Forall_forall in *. intros b Hb. eapply lt_entry_negtrans; eauto.
+Qed.
+
+Lemma isort_sorted l : sorted_by_compare (isort l).
+Proof. induction l; cbn; [constructor | auto using insert_sorted]. Qed.
+
+(** * Precedence, for any function returning a sorted permutation *)
+
+Lemma sorted_app_mid l1 x l2 :
+  sorted_by_compare (l1 ++ x :: l2) -> forall y, In y l1 -> lt_entry x y = false.
+Proof.
+  unfold sorted_by_compare. induction l1 as [|a l1 IH]; cbn; [tauto|]. intros S y [<-|H].
+  - apply StronglySorted_inv in S as [_ F]. rewrite Forall_forall in F. apply F, in_elt.
+  - apply StronglySorted_inv in S as [S _]. auto.
+Qed.
+
+Section SortedSort.
+  Variable sort : list entry -> list entry.
+  Hypothesis sort_perm : forall l, Permutation (sort l) l.
+  Hypothesis sort_sorted : forall l, sorted_by_compare (sort l).
+
+  Lemma qualifies_in_sorted tbl host qt e :
+    qualifies tbl host qt e ->
+    In e (sort (filter (fun e => match_qtype e qt) (filter (fun e => matches_host e host) tbl))).
+  Proof.
+    intros (H1 & H2 & H3). apply (Permutation_in _ (Permutation_sym (sort_perm _))).
+    rewrite !filter_In. auto.
+  Qed.
+
+  (** The first entry returned is minimal among all qualifying entries. *)
+  Lemma find_head_min tbl host qt r rest m :
+    find_rewrites sort tbl host qt = (r :: rest, m) ->
+    forall e, qualifies tbl host qt e -> lt_entry e r = false.
+  Proof.
+    unfold find_rewrites. destruct (is_nil _); [discriminate|]. intros [= C _] e Q.
+    apply qualifies_in_sorted in Q.
+    pose proof (sort_sorted (filter (fun e => match_qtype e qt)
+                              (filter (fun e => matches_host e host) tbl))) as S.
+    destruct (sort _) as [|x t]; [destruct Q|].
+    destruct (cut_head x t) as (t' & E). rewrite E in C. injection C as -> _.
+    apply StronglySorted_inv in S as [_ F]. rewrite Forall_forall in F.
+    destruct Q as [<-|Q]; auto using lt_entry_irrefl.
+  Qed.
+
+  Lemma find_nonempty tbl host qt e :
+    qualifies tbl host qt e -> exists r rest, fst (find_rewrites sort tbl host qt) = r :: rest.
+  Proof.
+    intros Q. pose proof (qualifies_in_sorted _ _ _ _ Q) as Hs. unfold find_rewrites.
+    destruct (filter (fun e => match_qtype e qt) _) as [|a l] eqn:F.
+    - exfalso. destruct Q as (H1 & H2 & H3).
+      assert (H : In e (filter (fun e => match_qtype e qt)
+                 (filter (fun e => matches_host e host) tbl))) by (rewrite !filter_In; auto).
+      rewrite F in H. destruct H.
+    - cbn [is_nil fst]. destruct (sort (a :: l)) as [|x t]; [destruct Hs|].
+      destruct (cut_head x t) as (t' & ->). eauto.
+  Qed.
+
+  (** A wildcard entry is used only alone, and only if it is minimal. *)
+  Lemma wildcard_result tbl host qt rws m r :
+    find_rewrites sort tbl host qt = (rws, m) -> In r rws ->
+    is_wildcard (e_dom r) = true ->
+    rws = [r] /\ forall e, qualifies tbl host qt e -> lt_entry e r = false.
+  Proof.
+    intros F Hr W.
+    assert (rws = [r]).
+    { revert F Hr. unfold find_rewrites. destruct (is_nil _); [intros [= <- _] []|].
+      intros [= <- _] Hr. destruct (cut_wildcard _ _ Hr W) as (t & _ & ->). reflexivity. }
+    subst rws. split; auto. eapply find_head_min; eauto.
+  Qed.
+
+  (** CNAME entries take precedence over address entries. *)
+  Theorem cname_over_address tbl host qt :
+    (exists e, In e tbl /\ matches_host e host = true /\ is_cname e = true) ->
+    exists r rest, fst (find_rewrites sort tbl host qt) = r :: rest /\ is_cname r = true.
+  Proof.
+    intros (e & H1 & H2 & H3).
+    assert (Q : qualifies tbl host qt e) by (unfold qualifies, match_qtype; rewrite H3; auto).
+    destruct (find_nonempty _ _ _ _ Q) as (r & rest & E). exists r, rest. split; auto.
+    destruct (find_rewrites sort tbl host qt) as [rws m] eqn:F. cbn in E. subst rws.
+    pose proof (find_head_min _ _ _ _ _ _ F e Q) as L.
+    destruct (is_cname r) eqn:C; auto.
+    assert (lt_entry e r = true) by (apply lt_entry_spec; auto). congruence.
+  Qed.
+
+  (** Within one kind an exact-name entry shadows wildcard entries. *)
+  Theorem exact_shadows_wildcard tbl host qt rws m r e :
+    find_rewrites sort tbl host qt = (rws, m) -> In r rws ->
+    is_wildcard (e_dom r) = true ->
+    qualifies tbl host qt e -> is_cname e = is_cname r ->
+    is_wildcard (e_dom e) = true.
+  Proof.
+    intros F Hr W Q K. destruct (wildcard_result _ _ _ _ _ _ F Hr W) as [_ M].
+    specialize (M e Q). destruct (is_wildcard (e_dom e)) eqn:We; auto.
+    assert (lt_entry e r = true) by (apply lt_entry_spec; auto). congruence.
+  Qed.
+
+  (** Among wildcards the most specific (longest pattern) wins. *)
+  Theorem most_specific_wildcard tbl host qt rws m r e :
+    find_rewrites sort tbl host qt = (rws, m) -> In r rws ->
+    is_wildcard (e_dom r) = true ->
+    qualifies tbl host qt e -> is_cname e = is_cname r ->
+    (length (e_dom e) <= length (e_dom r))%nat.
+  Proof.
+    intros F Hr W Q K. destruct (wildcard_result _ _ _ _ _ _ F Hr W) as [_ M].
+    pose proof (exact_shadows_wildcard _ _ _ _ _ _ _ F Hr W Q K) as We.
+    specialize (M e Q). destruct (Nat.le_gt_cases (length (e_dom e)) (length (e_dom r))); auto.
+    assert (lt_entry e r = true) by (apply lt_entry_spec; right; split; auto; right; split; [congruence|lia]).
+    congruence.
+  Qed.
+
+  (** A CNAME entry of any shape shadows every wildcard address entry, and
+      when an exact entry of a kind qualifies, entries of that kind in the
+      result are exact (restating the two above from the other side). *)
+  Corollary result_exact_when_exact_exists tbl host qt rws m r e :
+    find_rewrites sort tbl host qt = (rws, m) -> In r rws ->
+    qualifies tbl host qt e -> is_cname e = is_cname r -> is_wildcard (e_dom e) = false ->
+    is_wildcard (e_dom r) = false.
+  Proof.
+    intros F Hr Q K We. destruct (is_wildcard (e_dom r)) eqn:W; auto.
+    rewrite (exact_shadows_wildcard _ _ _ _ _ _ _ F Hr W Q K) in We. discriminate.
+  Qed.
+End SortedSort.
+
+(** * Exceptions and names matched without a value *)
+
+Lemma filter_none {A} (f : A -> bool) l : (forall x, In x l -> f x = false) -> filter f l = [].
+Proof.
+  induction l as [|a l IH]; cbn; intros H; [reflexivity|].
+  rewrite (H a) by auto. apply IH. intros x Hx. apply H. auto.
+Qed.
+
+Lemma matches_exact e host :
+  matches_host e host = true -> is_wildcard (e_dom e) = false -> e_dom e = host.
+Proof.
+  unfold matches_host, match_wildcard. intros H W. rewrite W in H. cbn in H.
+  rewrite orb_false_r in H. apply eqb_bytes_spec; auto.
+Qed.
+
+Lemma matches_self e : matches_host e (e_dom e) = true.
+Proof. unfold matches_host. rewrite eqb_bytes_refl. reflexivity. Qed.
+
+Definition rewritten_empty := {| r_reason := Rewritten; r_canon := []; r_ips := [] |}.
+
+Lemma wildcard_match_same_length r h :
+  is_wildcard r = true -> is_wildcard h = true -> match_wildcard h r = true ->
+  (length h <= length r)%nat -> r = h.
+Proof.
+  unfold match_wildcard. intros Wr Wh M L. rewrite Wr in M. cbn [andb] in M.
+  destruct r as [|a [|b r]]; try discriminate. destruct h as [|c [|d h]]; try discriminate.
+  cbn in Wr, Wh. apply andb_true_iff in Wr as [A B], Wh as [C D].
+  apply N.eqb_eq in A, B, C, D. subst. cbn [tl] in M. unfold has_suffix in M.
+  apply andb_true_iff in M as [M1 M2]. apply Nat.leb_le in M1. cbn [length] in *.
+  destruct (Nat.eq_dec (length r) (length h)) as [E|E].
+  - replace (S (S (length h)) - S (length r))%nat with 1%nat in M2 by lia.
+    cbn in M2. apply eqb_bytes_spec in M2. congruence.
+  - replace (S (S (length h)) - S (length r))%nat with 0%nat in M2 by lia.
+    cbn in M2. discriminate.
+Qed.
+
+Section Exceptions.
+  Variable sort : list entry -> list entry.
+  Hypothesis sort_perm : forall l, Permutation (sort l) l.
+
+  (** A name covered by the table but without any entry for the requested
+      type is rewritten to an empty answer. *)
+  Theorem matched_without_value tbl host qt :
+    (exists e, In e tbl /\ matches_host e host = true) ->
+    (forall e, In e tbl -> matches_host e host = true -> match_qtype e qt = false) ->
+    process_rewrites sort tbl host qt = Some rewritten_empty.
+  Proof.
+    intros M N. apply (find_rewrites_matched sort) with (qt := qt) in M.
+    rewrite find_rewrites_snd in M.
+    unfold process_rewrites, find_rewrites.
+    rewrite (filter_none (fun e => match_qtype e qt)).
+    2:{ intros x Hx. apply filter_In in Hx as [H1 H2]. auto. }
+    cbn [is_nil]. rewrite M. reflexivity.
+  Qed.
+
+  (** The first CNAME found pointing at the queried name, or at its own
+      pattern, makes the whole query pass through. *)
+  Lemma exception_head tbl host qt r rest :
+    find_rewrites sort tbl host qt = (r :: rest, true) -> is_cname r = true ->
+    e_ans r = host \/ e_ans r = e_dom r ->
+    process_rewrites sort tbl host qt = Some empty_result.
+  Proof.
+    intros F C E. unfold process_rewrites. rewrite F. cbn [negb chase andb]. rewrite C.
+    replace (eqb_bytes host (e_ans r) || eqb_bytes (e_dom r) (e_ans r)) with true; auto.
+    symmetry. apply orb_true_iff. destruct E as [->| ->]; rewrite eqb_bytes_refl; auto.
+  Qed.
+
+  Hypothesis sort_sorted : forall l, sorted_by_compare (sort l).
+
+  (** "name -> name": a query for a name whose exact CNAME entries all point
+      to the name itself is not rewritten, whatever else the table holds. *)
+  Theorem self_cname_exception tbl host qt :
+    (exists e, In e tbl /\ e_dom e = host /\ is_cname e = true) ->
+    (forall e, In e tbl -> e_dom e = host -> is_cname e = true -> e_ans e = host) ->
+    process_rewrites sort tbl host qt = Some empty_result.
+  Proof.
+    intros (s & S1 & S2 & S3) All.
+    assert (Ms : matches_host s host = true) by (rewrite <- S2; apply matches_self).
+    assert (Q : qualifies tbl host qt s) by (unfold qualifies, match_qtype; rewrite S3; auto).
+    destruct (find_nonempty sort sort_perm _ _ _ _ Q) as (r & rest & E).
+    destruct (find_rewrites sort tbl host qt) as [rws m] eqn:F. cbn in E. subst rws.
+    assert (m = true).
+    { change m with (snd (r :: rest, m)). rewrite <- F. apply find_rewrites_matched. eauto. }
+    subst m. pose proof (find_head_min sort sort_perm sort_sorted _ _ _ _ _ _ F s Q) as L.
+    assert (Qr : qualifies tbl host qt r).
+    { apply (find_rewrites_In sort sort_perm). rewrite F. cbn; auto. }
+    destruct Qr as (R1 & R2 & _).
+    assert (C : is_cname r = true).
+    { destruct (is_cname r) eqn:C; auto.
+      assert (lt_entry s r = true) by (apply lt_entry_spec; auto). congruence. }
+    eapply exception_head; eauto. left. apply All; auto.
+    destruct (is_wildcard (e_dom r)) eqn:W; [|apply matches_exact; auto].
+    destruct (is_wildcard (e_dom s)) eqn:Ws.
+    - (* the queried name is itself a wildcard text *)
+      unfold matches_host in R2. apply orb_true_iff in R2 as [R2|R2].
+      + apply eqb_bytes_spec; auto.
+      + apply wildcard_match_same_length; try congruence.
+        rewrite <- S2. destruct (Nat.le_gt_cases (length (e_dom s)) (length (e_dom r))); auto.
+        exfalso. assert (lt_entry s r = true); [|congruence].
+        apply lt_entry_spec. right. split; [congruence|]. right. split; [congruence|lia].
+    - exfalso. assert (lt_entry s r = true); [|congruence].
+      apply lt_entry_spec. right. split; [congruence|auto].
+  Qed.
+End Exceptions.
+
+Section TypeExceptions.
+  Variable sort : list entry -> list entry.
+  Hypothesis sort_perm : forall l, Permutation (sort l) l.
+  Hypothesis sort_sorted : forall l, sorted_by_compare (sort l).
+
+  Lemma type_exception_not_cname e qt : type_exception e qt -> is_cname e = false.
+  Proof.
+    intros (T & Q & _). unfold is_cname. destruct (e_type e); auto.
+    cbn in T. subst qt. discriminate.
+  Qed.
+
+  Lemma type_exception_qualifies tbl host qt e :
+    In e tbl -> matches_host e host = true -> type_exception e qt -> qualifies tbl host qt e.
+  Proof.
+    intros H1 H2 T. pose proof (type_exception_not_cname _ _ T) as C.
+    destruct T as (T & Q & _). unfold qualifies, match_qtype. rewrite C, Q, T, N.eqb_refl. auto.
+  Qed.
+
+  (** "name -> A" / "name -> AAAA": with no CNAME entry covering the name,
+      an exact exception entry of the requested type makes processRewrites
+      report "not found", and CheckHost passes the query on.  (For a queried
+      name that is itself a wildcard text the exception entry competes with
+      equal patterns for the single slot the cut leaves, and the outcome
+      depends on the order the sort leaves them in; hence the premise.) *)
+  Theorem type_exception_passes tbl host qt x :
+    is_wildcard host = false ->
+    (forall e, In e tbl -> matches_host e host = true -> is_cname e = false) ->
+    In x tbl -> e_dom x = host -> type_exception x qt ->
+    exists r, process_rewrites sort tbl host qt = Some r /\ r_reason r = NotFound.
+  Proof.
+    intros Wh NoC X1 X2 XT.
+    assert (Mx : matches_host x host = true) by (rewrite <- X2; apply matches_self).
+    pose proof (type_exception_qualifies _ _ _ _ X1 Mx XT) as Q.
+    pose proof (type_exception_not_cname _ _ XT) as Cx.
+    assert (Wx : is_wildcard (e_dom x) = false) by congruence.
+    unfold process_rewrites.
+    destruct (find_rewrites sort tbl host qt) as [rws m] eqn:F.
+    assert (m = true).
+    { change m with (snd (rws, m)). rewrite <- F. apply find_rewrites_matched. eauto. }
+    subst m. cbn [negb].
+    assert (All : forall e, In e rws -> qualifies tbl host qt e).
+    { intros e He. apply (find_rewrites_In sort sort_perm). rewrite F. auto. }
+    assert (Hx : In x rws).
+    { revert F. unfold find_rewrites.
+      pose proof (qualifies_in_sorted sort sort_perm _ _ _ _ Q) as Hs.
+      pose proof (sort_sorted (filter (fun e => match_qtype e qt)
+                                (filter (fun e => matches_host e host) tbl))) as S.
+      destruct (is_nil _) eqn:Nil.
+      { destruct (filter (fun e => match_qtype e qt) _) eqn:Fl; [|discriminate].
+        apply (Permutation_in _ (sort_perm _)) in Hs. destruct Hs. }
+      intros [= <-].
+      assert (Inc : forall y, In y (sort (filter (fun e => match_qtype e qt)
+                       (filter (fun e => matches_host e host) tbl))) -> qualifies tbl host qt y).
+      { intros y Hy. apply (Permutation_in _ (sort_perm _)) in Hy.
+        rewrite !filter_In in Hy. unfold qualifies. tauto. }
+      apply in_split in Hs as (l1 & l2 & E). rewrite E in *.
+      apply cut_keeps; auto. intros y Hy.
+      pose proof (sorted_app_mid _ _ _ S y Hy) as L.
+      destruct (is_wildcard (e_dom y)) eqn:Wy; auto.
+      assert (Qy : qualifies tbl host qt y) by (apply Inc, in_or_app; auto).
+      destruct Qy as (Y1 & Y2 & _). pose proof (NoC _ Y1 Y2) as Cy.
+      assert (lt_entry x y = true) by (apply lt_entry_spec; right; split; [congruence|auto]).
+      congruence. }
+    cbn [chase]. destruct rws as [|r rest]; [destruct Hx|].
+    destruct (All r (or_introl eq_refl)) as (R1 & R2 & _). rewrite (NoC _ R1 R2). cbn [andb].
+    eexists. split; [reflexivity|]. apply set_result_reason. right. eauto.
+  Qed.
+End TypeExceptions.
+
+(** * A covered name is passed on only because of an exception entry *)
+
+Definition cname_exception_in (tbl : list entry) (orig : bytes) : Prop :=
+  exists e, In e tbl /\ is_cname e = true /\ (e_ans e = orig \/ e_ans e = e_dom e).
+
+Definition type_exception_in (tbl : list entry) (qt : N) : Prop :=
+  exists e final, In e tbl /\ matches_host e final = true /\ type_exception e qt.
+
+Section OnlyExceptions.
+  Variable sort : list entry -> list entry.
+  Hypothesis sort_perm : forall l, Permutation (sort l) l.
+
+  Lemma chase_notfound fuel : forall tbl qt orig host visited canon rws matched r,
+    (forall e, In e rws -> In e tbl /\ matches_host e host = true) ->
+    chase sort fuel tbl qt orig host visited canon rws matched = Some r ->
+    r_reason r = NotFound ->
+    cname_exception_in tbl orig \/ type_exception_in tbl qt.
+  Proof.
+    induction fuel as [|fuel IH]; intros tbl qt orig host visited canon rws matched r Hr;
+      cbn [chase]; [discriminate|].
+    assert (D : forall c, Some (set_result {| r_reason := Rewritten; r_canon := c; r_ips := [] |} rws qt)
+                = Some r -> r_reason r = NotFound ->
+                cname_exception_in tbl orig \/ type_exception_in tbl qt).
+    { intros c E N. assert (E' : r = set_result {| r_reason := Rewritten; r_canon := c; r_ips := [] |} rws qt)
+        by congruence. subst r. clear E.
+      apply set_result_reason in N as [N|(e & He & T)]; [discriminate|].
+      right. exists e, host. destruct (Hr e He). auto. }
+    destruct rws as [|rw rws]; [apply D|].
+    destruct (matched && is_cname rw) eqn:MC; [|apply D].
+    apply andb_true_iff in MC as [_ C].
+    destruct (_ || _) eqn:X.
+    { intros _ _. left. exists rw. destruct (Hr rw (or_introl eq_refl)).
+      apply orb_true_iff in X as [X|X]; apply eqb_bytes_spec in X; auto. }
+    destruct (_ && _); [apply D|].
+    destruct (mem_bytes _ _); [intros [= <-]; discriminate|].
+    destruct (find_rewrites sort tbl (e_ans rw) qt) as [rws' m'] eqn:F.
+    apply IH. intros e H. change rws' with (fst (rws', m')) in H. rewrite <- F in H.
+    apply (find_rewrites_In sort sort_perm) in H. unfold qualifies in H. tauto.
+  Qed.
+
+  Theorem not_rewritten_only_by_exception tbl host qt r :
+    process_rewrites sort tbl host qt = Some r -> r_reason r = NotFound ->
+    (exists e, In e tbl /\ matches_host e host = true) ->
+    cname_exception_in tbl host \/ type_exception_in tbl qt.
+  Proof.
+    unfold process_rewrites. intros P N M.
+    apply (find_rewrites_matched sort) with (qt := qt) in M.
+    destruct (find_rewrites sort tbl host qt) as [rws m] eqn:F. cbn in M. subst m.
+    cbn [negb] in P. eapply chase_notfound; eauto.
+    intros e H. change rws with (fst (rws, true)) in H. rewrite <- F in H.
+    apply (find_rewrites_In sort sort_perm) in H. unfold qualifies in H. tauto.
+  Qed.
+
+  (** CheckHost discards a result that is not "rewritten". *)
+  Lemma check_host_not_rewritten en tbl host qt r :
+    process_rewrites sort tbl (to_lower host) qt = Some r -> r_reason r = NotFound ->
+    check_host sort en tbl host qt = Some empty_result.
+  Proof.
+    intros P N. unfold check_host. destruct (is_nil host); auto. destruct (negb en); auto.
+    rewrite P, N. reflexivity.
+  Qed.
+
+  Lemma check_host_rewritten tbl host qt r :
+    host <> [] -> process_rewrites sort tbl (to_lower host) qt = Some r ->
+    r_reason r = Rewritten -> check_host sort true tbl host qt = Some r.
+  Proof.
+    intros H P N. unfold check_host. destruct host; [congruence|]. cbn [is_nil negb].
+    rewrite P, N. reflexivity.
+  Qed.
+
+  Theorem check_host_passes_only_by_exception tbl host qt :
+    host <> [] -> check_host sort true tbl host qt = Some empty_result ->
+    (exists e, In e tbl /\ matches_host e (to_lower host) = true) ->
+    cname_exception_in tbl (to_lower host) \/ type_exception_in tbl qt.
+  Proof.
+    intros H C M. unfold check_host in C. destruct host; [congruence|]. cbn [is_nil negb] in C.
+    destruct (process_rewrites sort tbl (to_lower (n :: host)) qt) as [r|] eqn:P; [|discriminate].
+    destruct (r_reason r) eqn:N.
+    - eapply not_rewritten_only_by_exception; eauto.
+    - assert (r = empty_result) by congruence. subst r. discriminate.
+  Qed.
+End OnlyExceptions.
+
+(** * The statements at the level of CheckHost, as Props/C06.v quotes them *)
+
+Section CheckHostLevel.
+  Variable sort : list entry -> list entry.
+  Hypothesis sort_perm : forall l, Permutation (sort l) l.
+  Hypothesis sort_sorted : forall l, sorted_by_compare (sort l).
+
+  Theorem terminates tbl host qt :
+    process_rewrites sort tbl host qt <> None /\
+    forall enabled, check_host sort enabled tbl host qt <> None.
+  Proof. split; [apply process_rewrites_terminates | intro; apply check_host_terminates]; auto. Qed.
+
+  Theorem check_host_self_exception en tbl host qt :
+    (exists e, In e tbl /\ e_dom e = to_lower host /\ is_cname e = true) ->
+    (forall e, In e tbl -> e_dom e = to_lower host -> is_cname e = true -> e_ans e = to_lower host) ->
+    check_host sort en tbl host qt = Some empty_result.
+  Proof.
+    intros H1 H2. eapply check_host_not_rewritten.
+    - apply self_cname_exception; eauto.
+    - reflexivity.
+  Qed.
+
+  Theorem check_host_type_exception en tbl host qt x :
+    is_wildcard (to_lower host) = false ->
+    (forall e, In e tbl -> matches_host e (to_lower host) = true -> is_cname e = false) ->
+    In x tbl -> e_dom x = to_lower host -> type_exception x qt ->
+    check_host sort en tbl host qt = Some empty_result.
+  Proof.
+    intros W NoC X1 X2 XT.
+    destruct (type_exception_passes sort sort_perm sort_sorted _ _ _ _ W NoC X1 X2 XT) as (r & P & N).
+    eapply check_host_not_rewritten; eauto.
+  Qed.
+
+  Theorem check_host_matched_without_value tbl host qt :
+    host <> [] ->
+    (exists e, In e tbl /\ matches_host e (to_lower host) = true) ->
+    (forall e, In e tbl -> matches_host e (to_lower host) = true -> match_qtype e qt = false) ->
+    check_host sort true tbl host qt = Some rewritten_empty.
+  Proof.
+    intros H M N. eapply check_host_rewritten; auto.
+    apply matched_without_value; auto.
+  Qed.
+End CheckHostLevel.
+
+(** * The examples of AGHTechDoc.md, section "Rewrites" *)
+
+Module DocExamples.
+  Local Open Scope string_scope.
+  Definition v4 (n : N) := Some {| ip_is4 := true; ip_val := n |}.
+  Definition v6 (n : N) := Some {| ip_is4 := false; ip_val := n |}.
+  Definition ent (d a : string) (p : option ip) : entry :=
+    normalize {| w_dom := bs d; w_ans := bs a; w_parse := p |}.
+  Definition ip1234 := {| ip_is4 := true; ip_val := 16909060 |}.   (* 1.2.3.4 *)
+  Definition ip6_1 := {| ip_is4 := false; ip_val := 1 |}.          (* ::1 *)
+  Definition ask (tbl : list entry) (h : string) (qt : N) := check_host isort true tbl (bs h) qt.
+  Definition answer (canon : string) (ips : list ip) :=
+    Some {| r_reason := Rewritten; r_canon := bs canon; r_ips := ips |}.
+  Definition upstream := Some empty_result.     (* not rewritten: passed on *)
+
+  (** Example: A record *)
+  Definition t1 := [ent "host.com" "1.2.3.4" (v4 16909060)].
+  Example doc_a_A : ask t1 "host.com" qA = answer "" [ip1234]. Proof. vm_compute. reflexivity. Qed.
+  Example doc_a_AAAA : ask t1 "host.com" qAAAA = answer "" []. Proof. vm_compute. reflexivity. Qed.
+
+  (** Example: AAAA record *)
+  Definition t2 := [ent "host.com" "::1" (v6 1)].
+  Example doc_aaaa_A : ask t2 "host.com" qA = answer "" []. Proof. vm_compute. reflexivity. Qed.
+  Example doc_aaaa_AAAA : ask t2 "host.com" qAAAA = answer "" [ip6_1]. Proof. vm_compute. reflexivity. Qed.
+
+  (** Example: CNAME record (addresses of host.com come from upstream) *)
+  Definition t3 := [ent "sub.host.com" "host.com" None].
+  Example doc_cname_A : ask t3 "sub.host.com" qA = answer "host.com" []. Proof. vm_compute. reflexivity. Qed.
+  Example doc_cname_AAAA : ask t3 "sub.host.com" qAAAA = answer "host.com" []. Proof. vm_compute. reflexivity. Qed.
+
+  (** Example: CNAME+A records *)
+  Definition t4 := [ent "sub.host.com" "host.com" None; ent "host.com" "1.2.3.4" (v4 16909060)].
+  Example doc_cname_a_A : ask t4 "sub.host.com" qA = answer "host.com" [ip1234]. Proof. vm_compute. reflexivity. Qed.
+  Example doc_cname_a_AAAA : ask t4 "sub.host.com" qAAAA = answer "host.com" []. Proof. vm_compute. reflexivity. Qed.
+
+  (** Example: Wildcard CNAME+A record with CNAME exception *)
+  Definition t5 := [ent "*.host.com" "1.2.3.4" (v4 16909060); ent "pass.host.com" "pass.host.com" None].
+  Example doc_wild_my_A : ask t5 "my.host.com" qA = answer "" [ip1234]. Proof. vm_compute. reflexivity. Qed.
+  Example doc_wild_my_AAAA : ask t5 "my.host.com" qAAAA = answer "" []. Proof. vm_compute. reflexivity. Qed.
+  Example doc_wild_pass_A : ask t5 "pass.host.com" qA = upstream. Proof. vm_compute. reflexivity. Qed.
+  Example doc_wild_pass_AAAA : ask t5 "pass.host.com" qAAAA = upstream. Proof. vm_compute. reflexivity. Qed.
+
+  (** Example: A record with AAAA exception *)
+  Definition t6 := [ent "host.com" "1.2.3.4" (v4 16909060); ent "host.com" "AAAA" None].
+  Example doc_aaaa_exc_A : ask t6 "host.com" qA = answer "" [ip1234]. Proof. vm_compute. reflexivity. Qed.
+  Example doc_aaaa_exc_AAAA : ask t6 "host.com" qAAAA = upstream. Proof. vm_compute. reflexivity. Qed.
+
+  (** Example: pass A only *)
+  Definition t7 := [ent "host.com" "A" None].
+  Example doc_pass_a_A : ask t7 "host.com" qA = upstream. Proof. vm_compute. reflexivity. Qed.
+  Example doc_pass_a_AAAA : ask t7 "host.com" qAAAA = answer "" []. Proof. vm_compute. reflexivity. Qed.
+
+  Lemma all :
+    ask t1 "host.com" qA = answer "" [ip1234] /\
+    ask t1 "host.com" qAAAA = answer "" [] /\
+    ask t2 "host.com" qA = answer "" [] /\
+    ask t2 "host.com" qAAAA = answer "" [ip6_1] /\
+    ask t3 "sub.host.com" qA = answer "host.com" [] /\
+    ask t4 "sub.host.com" qA = answer "host.com" [ip1234] /\
+    ask t4 "sub.host.com" qAAAA = answer "host.com" [] /\
+    ask t5 "my.host.com" qA = answer "" [ip1234] /\
+    ask t5 "my.host.com" qAAAA = answer "" [] /\
+    ask t5 "pass.host.com" qA = upstream /\
+    ask t5 "pass.host.com" qAAAA = upstream /\
+    ask t6 "host.com" qA = answer "" [ip1234] /\
+    ask t6 "host.com" qAAAA = upstream /\
+    ask t7 "host.com" qA = upstream /\
+    ask t7 "host.com" qAAAA = answer "" [].
+  Proof. vm_compute. repeat split. Qed.
+
+  (** The premises of the theorems above are satisfiable by concrete tables. *)
+
+  (* a cycle that does not pass through the queried name, entered through a wildcard *)
+  Definition t_cycle := [ent "a.test" "x.test" None; ent "*.test" "y.x.test" None;
+                         ent "y.x.test" "x.test" None].
+  Example terminates_on_cycle :
+    process_rewrites isort t_cycle (bs "a.test") qA = answer "y.x.test" [].
+  Proof. vm_compute. reflexivity. Qed.
+
+  Example addresses_from_table_premises :
+    exists r i, process_rewrites isort t4 (bs "sub.host.com") qA = Some r /\ In i (r_ips r).
+  Proof. eexists _, ip1234. split; [vm_compute; reflexivity | cbn; auto]. Qed.
+
+  Definition t_prec := [ent "b.a.test" "1.2.3.4" (v4 16909060); ent "*.a.test" "::1" (v6 1);
+                        ent "*.a.test" "1.1.1.1" (v4 16843009); ent "*.test" "2.2.2.2" (v4 33686018);
+                        ent "*.test" "x.test" None].
+
+  Example cname_over_address_premises :
+    exists e, In e t_prec /\ matches_host e (bs "q.a.test") = true /\ is_cname e = true.
+  Proof. exists (ent "*.test" "x.test" None). vm_compute. auto 10. Qed.
+
+  Definition t_wild := [ent "b.a.test" "1.2.3.4" (v4 16909060); ent "*.test" "2.2.2.2" (v4 33686018);
+                        ent "*.a.test" "1.1.1.1" (v4 16843009); ent "*.a.test" "::1" (v6 1)].
+
+  (* q.a.test A is answered by the wildcard *.a.test while *.test also qualifies *)
+  Example wildcard_premises :
+    let r := ent "*.a.test" "1.1.1.1" (v4 16843009) in
+    let e := ent "*.test" "2.2.2.2" (v4 33686018) in
+    find_rewrites isort t_wild (bs "q.a.test") qA = ([r], true) /\ In r [r] /\
+    is_wildcard (e_dom r) = true /\ qualifies t_wild (bs "q.a.test") qA e /\
+    is_cname e = is_cname r.
+  Proof. vm_compute. auto 10. Qed.
+
+  Example self_exception_premises :
+    (exists e, In e t5 /\ e_dom e = to_lower (bs "pass.host.com") /\ is_cname e = true) /\
+    (forall e, In e t5 -> e_dom e = to_lower (bs "pass.host.com") -> is_cname e = true ->
+               e_ans e = to_lower (bs "pass.host.com")).
+  Proof.
+    split.
+    - exists (ent "pass.host.com" "pass.host.com" None). vm_compute. auto.
+    - intros e [<-|[<-|[]]]; vm_compute; congruence.
+  Qed.
+
+  Example type_exception_premises :
+    let x := ent "host.com" "AAAA" None in
+    is_wildcard (to_lower (bs "host.com")) = false /\
+    (forall e, In e t6 -> matches_host e (to_lower (bs "host.com")) = true -> is_cname e = false) /\
+    In x t6 /\ e_dom x = to_lower (bs "host.com") /\ type_exception x qAAAA.
+  Proof.
+    cbv zeta. repeat split; try (vm_compute; auto; fail).
+    intros e [<-|[<-|[]]]; vm_compute; auto.
+  Qed.
+
+  Example matched_without_value_premises :
+    bs "host.com" <> [] /\
+    (exists e, In e t1 /\ matches_host e (to_lower (bs "host.com")) = true) /\
+    (forall e, In e t1 -> matches_host e (to_lower (bs "host.com")) = true ->
+               match_qtype e qAAAA = false).
+  Proof.
+    repeat split.
+    - vm_compute. discriminate.
+    - eexists. split; [left; reflexivity|]. vm_compute. reflexivity.
+    - intros e [<-|[]] _. vm_compute. reflexivity.
+  Qed.
+
+  Example passes_only_by_exception_premises :
+    bs "host.com" <> [] /\ check_host isort true t7 (bs "host.com") qA = Some empty_result /\
+    exists e, In e t7 /\ matches_host e (to_lower (bs "host.com")) = true.
+  Proof.
+    split; [vm_compute; discriminate|]. split; [vm_compute; reflexivity|].
+    eexists. split; [left; reflexivity|]. vm_compute. reflexivity.
+  Qed.
+
+  (** Several values under one wildcard pattern: the cut keeps a single
+      entry, so only one of them is answered (which one is up to the sort;
+      configuration order with a stable sort).  Observed in the code too. *)
+  Example one_value_per_wildcard :
+    process_rewrites isort
+      [ent "*.a.test" "1.1.1.1" (v4 16843009); ent "*.a.test" "2.2.2.2" (v4 33686018)]
+      (bs "q.a.test") qA = answer "" [{| ip_is4 := true; ip_val := 16843009 |}].
+  Proof. vm_compute. reflexivity. Qed.
+End DocExamples.
